@@ -2975,7 +2975,7 @@ fn run_shell_case(tag: &str, script: &str) {
 /// (tag, script template); `%` is replaced by a per-instance suffix.  Tag `clean` = no catalogued
 /// divergence is involved.  Only built-ins of the real binary are used (`alias` without aliases is
 /// the do-nothing regular built-in, `typeset -p` the printer).
-const FRAGMENTS: [(&str, &str); 127] = [
+const FRAGMENTS: [(&str, &str); 137] = [
     ("clean", "x%=one; typeset -p x% >o%; x%=two; typeset -p x% >o%; read -r l <o%; typeset -p l"),
     ("clean", "x%=ap; typeset -p x% >>a%; x%=bp; typeset -p x% >>a%; umask >>a%"),
     ("clean", "set -C; alias >f1; s=$?; typeset -p s; typeset -p s >|f1; alias >n%; set +C; read -r l <f1; typeset -p l"),
@@ -3013,12 +3013,23 @@ const FRAGMENTS: [(&str, &str); 127] = [
     ("clean", "alias >d2; s=$?; typeset -p s; alias >>d1; s=$?; typeset -p s"),
     ("dotdot", "alias >d1/../up%; s=$?; typeset -p s; cd d1; alias >../up2%; s=$?; typeset -p s; cd .."),
     ("clean", "cd d1/dd; cd -P ..; typeset -p PWD; cd .."),
-    ("cwdshape", "cd -P d1/; typeset -p PWD; pwd -P; pwd; cd .."),
-    ("cwdshape", "cd -P ./d1//dd/.; s=$?; typeset -p s PWD; pwd -P; (pwd -P; cd -P ..//; pwd -P); x%=$(pwd -P); typeset -p x%; cd ../.."),
-    ("cwdshape", "cd -P d1//; alias >in%; pwd -P; cd -P dd/; pwd -P; cd -P ../..; pwd -P; typeset -p PWD OLDPWD"),
-    ("cwdshape", "cd d1/; pwd; pwd -P; typeset -p PWD; cd ./dd//; pwd; pwd -P; cd -P .; typeset -p PWD; cd ../..//; pwd"),
-    ("cwdshape", "cd -P f1/; s=$?; typeset -p s; cd -P nodir%//; s=$?; typeset -p s; cd -P d1/g/.; s=$?; typeset -p s; pwd -P"),
-    ("cwdshape", "cd -P d2/./; for i in ../d1/*; do typeset -p i; done; typeset -p PWD | { read -r l; typeset -p l; pwd -P; }; cd .."),
+    // what wave 3 put into the pivot, seen from scripts: fork inheritance, zombies, listing, pipe holders
+    ("forkinherit", "umask 027; (umask; umask 077; umask); umask; x%=$(umask); typeset -p x%; umask 644"),
+    ("forkinherit", "cd d1; (cd -P .; typeset -p PWD; cd dd; typeset -p PWD); typeset -p PWD; y%=$(cd dd; cd -P .; typeset -p PWD); typeset -p y%; cd .."),
+    ("forkinherit", "(ulimit -n 20; ulimit -n; (ulimit -n; ulimit -n 12; ulimit -n); ulimit -n; z%=$(ulimit -n); typeset -p z%)"),
+    ("forkinherit", "exec @F<f1; (read -r a <&@F; typeset -p a); read -r b <&@F; s=$?; typeset -p s b; exec @F<&-"),
+    ("forkinherit", "trap '' INT; (trap; trap - INT; trap); trap; v%=$(trap); typeset -p v%; trap - INT"),
+    ("zombie", "(exit 3) & wait $!; s=$?; wait $!; t=$?; kill -s 0 $!; u=$?; typeset -p s t u"),
+    ("zombie", "(exit 5) & p%=$!; wait; kill -s 0 $p%; u=$?; wait $p%; t=$?; typeset -p u t"),
+    ("listing", "cd d2; alias >.hid%; alias >vis%; for i in * .h* .* ../d1/.* ../d1/*; do typeset -p i; done; cd .."),
+    ("pipeholders", "{ typeset -p PWD; (exec >&-; exit 0); } | { while read -r l; do typeset -p l; done; s=$?; typeset -p s; }"),
+    ("pipeholders", "typeset -p PWD | { (exit 0); read -r l; typeset -p l; read -r m; s=$?; typeset -p s; }"),
+    ("cwdshape", "cd -P d1/; typeset -p PWD; cd -P .; typeset -p PWD; typeset -p PWD; cd .."),
+    ("cwdshape", "cd -P ./d1//dd/.; s=$?; typeset -p s PWD; cd -P .; typeset -p PWD; (cd -P .; typeset -p PWD; cd -P ..//; cd -P .; typeset -p PWD); x%=$(cd -P .; typeset -p PWD); typeset -p x%; cd ../.."),
+    ("cwdshape", "cd -P d1//; alias >in%; cd -P .; typeset -p PWD; cd -P dd/; cd -P .; typeset -p PWD; cd -P ../..; cd -P .; typeset -p PWD; typeset -p PWD OLDPWD"),
+    ("cwdshape", "cd d1/; typeset -p PWD; cd -P .; typeset -p PWD; typeset -p PWD; cd ./dd//; typeset -p PWD; cd -P .; typeset -p PWD; cd -P .; typeset -p PWD; cd ../..//; typeset -p PWD"),
+    ("cwdshape", "cd -P f1/; s=$?; typeset -p s; cd -P nodir%//; s=$?; typeset -p s; cd -P d1/g/.; s=$?; typeset -p s; cd -P .; typeset -p PWD"),
+    ("cwdshape", "cd -P d2/./; for i in ../d1/*; do typeset -p i; done; typeset -p PWD | { read -r l; typeset -p l; cd -P .; typeset -p PWD; }; cd .."),
     ("clean", "cd d1; (alias >sub%); y=$(for i in *; do typeset -p i; done); typeset -p y; cd .."),
     ("clean", "cd d2; x%=q; typeset -p x% | { read -r l; typeset -p l >pp%; }; cd .."),
     ("clean", "umask 027; (alias >su%); alias | alias >sv%; umask 644"),
